@@ -263,4 +263,4 @@ ASSUME = ['the similarity functions of the alphabet are trusted as given; the re
 if __name__ == '__main__':
     tier = sys.argv[1] if len(sys.argv) > 1 else 'quick'
     sys.exit(run_check('C05', tier, layers(tier), assumptions=ASSUME,
-                       cap_s=300 if tier == 'quick' else 3000))
+                       cap_s=300 if tier == 'quick' else 6000))
